@@ -33,14 +33,30 @@ func c14r7(p *model.Prog, r *report.Result) {
 			continue
 		}
 		n++
-		viaCalc, viaDanger := false, false
+		viaCalc, viaDanger, caseMismatch := false, false, false
 		for _, g := range model.Guards(ret.Block()) {
 			c, pol := model.StripNot(g.Cond, g.Polarity)
-			b, ok := c.(*ssa.BinOp)
-			if !ok || b.Op != token.EQL || !pol {
+			if !pol {
 				continue
 			}
-			x, y := b.X, b.Y
+			var x, y ssa.Value
+			fold := false
+			switch b := c.(type) {
+			case *ssa.BinOp:
+				if b.Op != token.EQL {
+					continue
+				}
+				x, y = b.X, b.Y
+			case *ssa.Call:
+				// strings.EqualFold(a, b): equality up to letter case
+				o := model.CalleeObj(b.Common())
+				if o == nil || o.Pkg() == nil || o.Pkg().Path() != "strings" || o.Name() != "EqualFold" {
+					continue
+				}
+				x, y, fold = b.Call.Args[0], b.Call.Args[1], true
+			default:
+				continue
+			}
 			if !fromGet(x) {
 				x, y = y, x
 			}
@@ -50,8 +66,16 @@ func c14r7(p *model.Prog, r *report.Result) {
 			if isCalc(y) {
 				viaCalc = true
 			}
-			if model.IsLoadOfField(y, danger) {
+			yRaw := y
+			if c, isC := y.(*ssa.Call); isC && caseNormalised(y) && len(c.Call.Args) == 1 {
+				yRaw = c.Call.Args[0] // strings.ToLower(config.DangerousLalSecret)
+			}
+			if model.IsLoadOfField(yRaw, danger) {
 				viaDanger = true
+				// a case-normalised presented value compared byte for byte with the raw configured value
+				if !fold && caseNormalised(x) && !caseNormalised(y) {
+					caseMismatch = true
+				}
 			}
 		}
 		nonEmpty := model.GuardedBy(ret, func(c ssa.Value, pol bool) bool {
@@ -73,6 +97,8 @@ func c14r7(p *model.Prog, r *report.Result) {
 		switch {
 		case viaCalc:
 			r.Ok("C14.R7", fkey(check, "admit", "calc-secret"), p.InstrPos(ret), "admits behind presented == SimpleAuthCalcSecret(Key, streamName)")
+		case viaDanger && caseMismatch:
+			r.Bad("C14.R7", fkey(check, "admit", "dangerous-secret-case"), p.InstrPos(ret), "the presented secret is lower-cased before it is compared byte for byte with the configured DangerousLalSecret, which is not: a configured override secret containing an upper-case letter can never be presented successfully")
 		case viaDanger:
 			r.Check(nonEmpty, "C14.R7", fkey(check, "admit", "dangerous-secret"), p.InstrPos(ret), "admits behind presented == DangerousLalSecret with the empty value excluded", "the presented secret is compared with DangerousLalSecret although either may be empty: with the default (empty) dangerous_lal_secret a request without lal_secret is admitted")
 		default:
@@ -97,4 +123,16 @@ func c14r7(p *model.Prog, r *report.Result) {
 			r.Check(ok, "C14.R7", fkey(fn, "hook", "nil-return"), p.InstrPos(ret), "unauthenticated nil only when the protocol's enable condition is false", "the hook admits after the enable condition held without the result of check()")
 		}
 	}
+}
+
+// caseNormalised: the value went through strings.ToLower / ToUpper.
+func caseNormalised(v ssa.Value) bool {
+	return model.DependsOn(v, func(x ssa.Value) bool {
+		c, ok := x.(*ssa.Call)
+		if !ok {
+			return false
+		}
+		o := model.CalleeObj(c.Common())
+		return o != nil && o.Pkg() != nil && o.Pkg().Path() == "strings" && (o.Name() == "ToLower" || o.Name() == "ToUpper")
+	})
 }
